@@ -254,6 +254,28 @@ def rules(ctx):
     ctx.rule('R16.1', "a weight `lam` reaches only arithmetic, lam= arguments and the allow-listed tests", floor=40)
     ctx.rule('R16.2', "subs builds a fresh object, stores every key on every path, never writes self; "
                       "PCBO.subs substitutes every recorded constraint; PCSO delegates", floor=6)
+    ctx.rule('R16.3', "the conversion chain to_pubo / to_qubo / to_puso / to_quso / to_enumerated hands the converted model on "
+                      "without rounding or numeric coercion (round() drops every coefficient it cannot round, i.e. every "
+                      "symbolic one)", floor=10)
+    conv = [f for f in P.all_funcs() if f.outer is None and (
+        (f.cls is not None and f.name.startswith('to_')) or f.module.name.endswith('._conversions'))]
+    for f in conv:
+        bad = [c for c in calls_in(f.node) if (isinstance(c.func, ast.Name) and c.func.id in ('round', 'int', 'float', 'abs'))
+               or (isinstance(c.func, ast.Attribute) and c.func.attr in ('__round__', 'normalize'))]
+        # numeric helpers on plain numbers (e.g. int(...) of a bit count) are not model coercions: only calls whose
+        # argument is model-typed or a conversion call count
+        hits = []
+        for c in bad:
+            a = c.args[0] if c.args else (c.func.value if isinstance(c.func, ast.Attribute) else None)
+            if a is None:
+                continue
+            ts = R.infer(a, f, None)
+            if any(R.is_model_class(t) for t in ts) or (isinstance(a, ast.Call) and (call_name(a) or '').startswith(('to_', 'qubo_to', 'pubo_to', 'quso_to', 'puso_to'))):
+                hits.append(c)
+        ctx.inst('R16.3', f, hits[0] if hits else 'def %s' % f.name, not hits,
+                 "converted model handed on unchanged" if not hits else
+                 "`%s` rounds / coerces the converted model: coefficients that contain a symbol are dropped, so converting with "
+                 "a symbolic weight and substituting differs from converting with the number" % src(hits[0])[:70])
     T = Taint(ctx)
     nsrc = 0
     for f in P.all_funcs():
